@@ -23,6 +23,7 @@ import HSModel.Proofs.DiscRun
 import HSModel.Proofs.LockLemmas
 import HSModel.Proofs.SerialSpec
 import HSModel.Proofs.ConcSafe
+import HSModel.Proofs.Acq
 namespace HS.C08
 variable (cfg : Config) (o : Oracle)
 
@@ -145,5 +146,16 @@ theorem all_returned_nothing_locked_under_any_schedule (calls : List Call) (w0 :
     exact call_neutral cfg o x
   obtain ⟨hs, g⟩ := ginv_schedule fuel sched _ 0 _ (ginv_initial _ w0 h0 hd)
   exact ginv_all_finished_free g hf
+
+/-! ### the claims of the model's calls are the claims of the source's methods -/
+
+/-- every call of the model, whatever the file system answers, claims and releases identifiers of
+    its classes only (`classesOf`) -/
+theorem calls_claim_only_their_classes (c : Call) : (c.prog cfg o).AllEv (AcqIn (classesOf c)) :=
+  call_acq cfg o c
+
+/-- `classesOf` and `apiName` look at the kind of a call only; the lists the source's API methods may
+    claim are these classes: `Tables.source_claims_are_model_claims` -/
+theorem call_kind_only (c : Call) : ∃ r ∈ reps, apiName r = apiName c ∧ classesOf r = classesOf c := kind_only c
 
 end HS.C08
